@@ -10,6 +10,8 @@ import (
 	"sort"
 	"strings"
 
+	"github.com/go-python/gpython/ast"
+	"github.com/go-python/gpython/parser"
 	"github.com/go-python/gpython/py"
 	"github.com/go-python/gpython/vm"
 )
@@ -100,6 +102,16 @@ func (r *REPL) Run(line string) error {
 			return nil
 		}
 	}
+	if err == nil && !r.continuation && isCompoundStatement(toCompile) {
+		// A compound statement typed on one line ("if x: y = 1")
+		// may still be continued by a further clause ("else: y = 2")
+		// so, like any other compound statement, it is run when it
+		// is terminated by a blank line.
+		r.continuation = true
+		r.previous += string(line) + "\n"
+		r.term.SetPrompt(ContinuationPrompt)
+		return nil
+	}
 	r.continuation = false
 	r.term.SetPrompt(NormalPrompt)
 	r.previous = ""
@@ -115,6 +127,25 @@ func (r *REPL) Run(line string) error {
 		py.TracebackDump(err)
 	}
 	return nil
+}
+
+// isCompoundStatement reports whether src, which must be valid
+// interactive input, is a compound statement (if, while, for, try,
+// with, def, class - decorated or not).
+func isCompoundStatement(src string) bool {
+	tree, err := parser.ParseString(src+"\n", py.SingleMode)
+	if err != nil {
+		return false
+	}
+	mod, ok := tree.(*ast.Interactive)
+	if !ok || len(mod.Body) == 0 {
+		return false
+	}
+	switch mod.Body[0].(type) {
+	case *ast.If, *ast.While, *ast.For, *ast.Try, *ast.With, *ast.FunctionDef, *ast.ClassDef:
+		return true
+	}
+	return false
 }
 
 // errorMessage returns the message of a compile error without the
